@@ -466,6 +466,12 @@ func (p *Pub) ServeHTTP(w http.ResponseWriter, r *http.Request) {
 		done(200)
 		w.WriteHeader(200)
 		w.Write(fault.Body)
+	case "declared":
+		// 200 with a declared Content-Length of fault.Status bytes but only
+		// fault.Body sent, then the connection is closed
+		done(-5)
+		hdr := fmt.Sprintf("HTTP/1.1 200 OK\r\nContent-Length: %d\r\nContent-Type: application/json\r\n\r\n", fault.Status)
+		hijackClose(w, append([]byte(hdr), fault.Body...))
 	case "mutate":
 		done(200)
 		w.WriteHeader(200)
